@@ -202,7 +202,10 @@ def gen_sequences(chk):
     hb = 0
     reps = 3 if chk.thorough else 1
     for d in range(1, 6):
-        for modes in ordered_subsets(d):
+        subs = list(ordered_subsets(d))
+        if d == 5 and not chk.thorough:
+            subs = rng.sample(subs, 60)
+        for modes in subs:
             kinds = kinds_for(len(modes))
             chosen = kinds if chk.thorough and len(modes) <= 2 else [rng.choice(kinds) for _ in range(reps)]
             for kind in chosen:
@@ -222,7 +225,7 @@ def gen_sequences(chk):
     return cases
 
 
-NRAND_Q, NRAND_T = 40, 400
+NRAND_Q, NRAND_T = 24, 400
 SQRT_DIGITS = 40
 
 
@@ -337,7 +340,7 @@ def run(chk: Check):
             c["d"], c["hbar"], [o[2] for o in c["ops"]]))
     distinct = len({(c["d"], c["ops"][-1][2]) for c in cases})
     chk.stream("GaussianSimulator xxpp mean/covariance after gate sequences vs exact moment model "
-               "(every ordered subset of d<=5 modes, hbar in {1/2,1,2,37/10})",
+               "(every ordered subset of d<=%s modes%s, hbar in {1/2,1,2,37/10})" % (("5", "") if chk.thorough else ("4", " and 60 sampled ones of d=5")),
                len(cases), distinct,
                samples=[{"d": c["d"], "hbar": str(c["hbar"]), "ops": [list(map(str, o[2])) for o in c["ops"]]} for c in cases[100:102]],
                note="%d of the sequences end in an operation on an ordered subset enumerated exhaustively" % (len(cases) - (NRAND_T if chk.thorough else NRAND_Q)))
@@ -346,8 +349,173 @@ def run(chk: Check):
     finish(chk, corr_broken)
 
 
+def _c(m):
+    a = np.array(m, dtype=float)
+    return a[..., 0] + 1j * a[..., 1]
+
+
+def _embed(d, modes, P, A):
+    """2d x 2d complex-form matrix [[Pf, Af], [conj Af, conj Pf]] of (P, A) on `modes`"""
+    Pf = np.identity(d, dtype=complex)
+    Af = np.zeros((d, d), dtype=complex)
+    for a, ma in enumerate(modes):
+        for b, mb in enumerate(modes):
+            Pf[ma, mb] = P[a][b]
+            Af[ma, mb] = 0 if A is None else A[a][b]
+    return np.block([[Pf, Af], [Af.conj(), Pf.conj()]])
+
+
+GRID_ANGLE = [0.0, math.pi / 2, math.pi, -math.pi / 3, 1e-8, 1e3, 2.5]
+GRID_R = [0.0, 1e-8, 0.5, -1.3, 3.0]
+GRID_S = [0.0, 1e-8, -2.5, 1e3]
+
+
 def search(chk, cases):
-    pass
+    """the property stated directly on the implementation (numerically, no model)"""
+    rng = chk.rng
+    # ---- (a) blocks on a parameter grid
+    greq = []
+    for g, ps in GATE_PARAMS.items():
+        grids = [GRID_R if p == "r" else GRID_S if p == "s" else GRID_ANGLE for p in ps]
+        for vals in itertools.product(*grids):
+            greq.append({"gate": g, "params": dict(zip(ps, vals))})
+    # ---- (b) congruence on every (quick: sampled) ordered subset, (c) documented identities
+    sreq, smeta = [], []
+    subsets = [(d, m) for d in range(1, 6) for m in ordered_subsets(d)]
+    if not chk.thorough:
+        subsets = [x for x in subsets if x[0] <= 3] + rng.sample([x for x in subsets if x[0] > 3], 50)
+
+    def fgate(name, modes, **params):
+        return {"k": "gate", "name": name, "params": params, "modes": list(modes)}
+
+    def prefix(d):
+        ops = []
+        for i in range(d):
+            ops.append(fgate("Displacement", (i,), r=rng.uniform(-1, 1), phi=rng.uniform(-3, 3)))
+            ops.append(fgate("Squeezing", (i,), r=rng.uniform(-0.7, 0.7), phi=rng.uniform(-3, 3)))
+        order = list(range(d))
+        rng.shuffle(order)
+        for a, b in zip(order, order[1:]):
+            ops.append(fgate("Beamsplitter", (a, b), theta=rng.uniform(-3, 3), phi=rng.uniform(-3, 3)))
+        return ops
+
+    for n, (d, modes) in enumerate(subsets):
+        k = len(modes)
+        hbar = float(HBARS[n % 4])
+        if k <= 2 and rng.random() < 0.8:
+            name = rng.choice(ONE_MODE if k == 1 else TWO_MODE)
+            par = {p: (rng.uniform(-0.8, 0.8) if p == "r" else rng.uniform(-2, 2) if p == "s" else rng.uniform(-4, 4)) for p in GATE_PARAMS[name]}
+            op = fgate(name, modes, **par)
+            greq.append({"gate": name, "params": par})
+            smeta.append(("cong", d, modes, len(greq) - 1, None, name))
+        else:
+            z = np.array([[complex(rng.gauss(0, 1), rng.gauss(0, 1)) for _ in range(k)] for _ in range(k)])
+            q, _ = np.linalg.qr(z)
+            U = [[[float(x.real), float(x.imag)] for x in row] for row in q]
+            op = {"k": "interf", "matrix": U, "modes": list(modes)}
+            smeta.append(("cong", d, modes, None, q, "Interferometer"))
+        sreq.append({"d": d, "hbar": hbar, "ops": prefix(d) + [{"k": "snap"}, op, {"k": "snap"}]})
+    # identities: pairs of programs that must give the same state
+    nid = 40 if chk.thorough else 8
+    for n in range(nid):
+        d = rng.randint(2, 4)
+        i, j = rng.sample(range(d), 2)
+        hbar = float(HBARS[n % 4])
+        pre = prefix(d)
+        r, phi, a1, a2 = rng.uniform(-0.8, 0.8), rng.uniform(-3, 3), rng.uniform(-3, 3), rng.uniform(-3, 3)
+        pairs = [
+            ("Fourier = Phaseshifter(pi/2)", [fgate("Fourier", (i,))], [fgate("Phaseshifter", (i,), phi=math.pi / 2)]),
+            ("Beamsplitter5050 = Beamsplitter(pi/4, 0)", [fgate("Beamsplitter5050", (i, j))],
+             [fgate("Beamsplitter", (i, j), theta=math.pi / 4, phi=0.0)]),
+            ("MachZehnder decomposition", [fgate("MachZehnder", (i, j), int_=a1, ext=a2)],
+             [fgate("Phaseshifter", (i,), phi=a2), fgate("Beamsplitter", (i, j), theta=math.pi / 4, phi=math.pi / 2),
+              fgate("Phaseshifter", (i,), phi=a1), fgate("Beamsplitter", (i, j), theta=math.pi / 4, phi=math.pi / 2)]),
+            ("Squeezing2 decomposition", [fgate("Squeezing2", (i, j), r=r, phi=phi)],
+             [fgate("Beamsplitter", (i, j), theta=-math.pi / 4, phi=0.0), fgate("Squeezing", (i,), r=-r, phi=phi),
+              fgate("Squeezing", (j,), r=r, phi=phi), fgate("Beamsplitter", (i, j), theta=math.pi / 4, phi=0.0)]),
+        ]
+        for what, lhs, rhs in pairs:
+            sreq.append({"d": d, "hbar": hbar, "ops": pre + lhs})
+            sreq.append({"d": d, "hbar": hbar, "ops": pre + rhs})
+            smeta.append(("ident", what, d, (i, j), hbar))
+            smeta.append(None)
+        # displacement shift
+        rr, ph = rng.uniform(-2, 2), rng.uniform(-3, 3)
+        kind = rng.choice(DISPL)
+        par = {"Displacement": {"r": rr, "phi": ph}, "PositionDisplacement": {"x": rr}, "MomentumDisplacement": {"p": rr}}[kind]
+        alpha = {"Displacement": rr * complex(math.cos(ph), math.sin(ph)), "PositionDisplacement": complex(rr, 0), "MomentumDisplacement": complex(0, rr)}[kind]
+        sreq.append({"d": d, "hbar": hbar, "ops": pre})
+        sreq.append({"d": d, "hbar": hbar, "ops": pre + [fgate(kind, (i,), **par)]})
+        smeta.append(("disp", kind, d, i, hbar, alpha, par))
+        smeta.append(None)
+    res = run_impl("c07_impl.py", {"blocks": greq, "seqs": sreq}, timeout=3000)
+    lap(chk, "impl search")
+    neval = 0
+    K2 = lambda n: np.diag([1.0] * n + [-1.0] * n)
+    # (a)
+    ngrid = sum(len(list(itertools.product(*[GRID_R if p == "r" else GRID_S if p == "s" else GRID_ANGLE for p in ps]))) for ps in GATE_PARAMS.values())
+    for q, r in list(zip(greq, res["blocks"]))[:ngrid]:
+        neval += 1
+        P = _c(r["P"])
+        A = None if r["A"] is None else _c(r["A"])
+        n = len(P)
+        S = _embed(n, list(range(n)), P, A)
+        scale = 1 + np.abs(S).max() ** 2
+        err = np.abs(S @ K2(n) @ S.conj().T - K2(n)).max()
+        if not err <= 1e-9 * scale:
+            chk.violation("C07:%s:block-not-%s" % (q["gate"], "unitary" if A is None else "symplectic"),
+                          "S K S^dagger != K for the gate's ladder-operator matrix", {"gate": q["gate"], "params": q["params"], "error": float(err)})
+    # (b), (c)
+    it = iter(zip(smeta, res["seqs"]))
+    allres = res["seqs"]
+    for idx, meta in enumerate(smeta):
+        if meta is None:
+            continue
+        r = allres[idx]
+        neval += 1
+        if meta[0] == "cong":
+            _, d, modes, bi, U, name = meta
+            if bi is not None:
+                b = res["blocks"][bi]
+                S = _embed(d, modes, _c(b["P"]), None if b["A"] is None else _c(b["A"]))
+            else:
+                S = _embed(d, modes, U, None)
+            s0, s1 = r["snaps"]
+            mu0, mu1 = _c(s0["mu_c"]), _c(s1["mu_c"])
+            sg0, sg1 = _c(s0["sigma_c"]), _c(s1["sigma_c"])
+            tolm = 1e-9 * (1 + np.abs(mu1).max())
+            tols = 1e-9 * (1 + np.abs(sg1).max())
+            if not (np.abs(S @ mu0 - mu1).max() <= tolm and np.abs(S @ sg0 @ S.conj().T - sg1).max() <= tols):
+                chk.violation("C07:GaussianSimulator:%s:not-a-congruence:k=%d" % (name, len(modes)),
+                              "state after the gate is not S mu, S sigma S^dagger with the embedded symplectic matrix",
+                              {"d": d, "modes": list(modes), "gate": name, "ops": sreq[idx]["ops"],
+                               "mean_error": float(np.abs(S @ mu0 - mu1).max()),
+                               "cov_error": float(np.abs(S @ sg0 @ S.conj().T - sg1).max())})
+        elif meta[0] == "ident":
+            _, what, d, ij, hbar = meta
+            r2_ = allres[idx + 1]
+            e1 = np.abs(np.array(r["mean"]) - np.array(r2_["mean"])).max()
+            e2 = np.abs(np.array(r["cov"]) - np.array(r2_["cov"])).max()
+            tol = 1e-9 * (1 + np.abs(np.array(r["cov"])).max())
+            if not (e1 <= tol and e2 <= tol):
+                chk.violation("C07:identity:%s" % what, "documented identity fails on GaussianSimulator",
+                              {"d": d, "modes": list(ij), "hbar": hbar, "lhs": sreq[idx]["ops"][-1:], "rhs": sreq[idx + 1]["ops"][-4:],
+                               "mean_error": float(e1), "cov_error": float(e2)})
+        elif meta[0] == "disp":
+            _, kind, d, i, hbar, alpha, par = meta
+            r2_ = allres[idx + 1]
+            shift = np.zeros(2 * d)
+            shift[i] = math.sqrt(2 * hbar) * alpha.real
+            shift[d + i] = math.sqrt(2 * hbar) * alpha.imag
+            e1 = np.abs(np.array(r2_["mean"]) - np.array(r["mean"]) - shift).max()
+            e2 = np.abs(np.array(r2_["cov"]) - np.array(r["cov"])).max()
+            if not (e1 <= 1e-9 * (1 + np.abs(shift).max()) and e2 <= 1e-12):
+                chk.violation("C07:%s:shift" % kind, "displacement does not shift the xxpp mean by sqrt(2 hbar) alpha",
+                              {"d": d, "mode": i, "hbar": hbar, "params": par, "mean_error": float(e1), "cov_error": float(e2)})
+    chk.stream("direct search on the implementation: symplecticity on a parameter grid (0, pi/2, pi, negative, 1e-8, 1e3), "
+               "congruence with the embedded matrix on ordered subsets, documented identities, displacement shift",
+               neval, neval // 2, kind="search",
+               samples=[{"gate": greq[3]["gate"], "params": greq[3]["params"]}])
 
 
 def finish(chk, corr_broken):
